@@ -62,6 +62,7 @@ type RunConfig struct {
 	FinalStop   bool           `json:"final_stop"`             // the action list ends with an explicit stop
 	PSFirst     int            `json:"ps_first_pct,omitempty"` // when both netlink clients wait: chance (percent) that the periodic one is served first (0 = 50)
 	CoLoc       bool           `json:"coloc,omitempty"`     // SMF 1 sends from SMF 0's IP address, another port
+	FreeRun     bool           `json:"free_run,omitempty"`  // C17: execute the action list in free-running mode (free.go)
 	FQDNMask    int            `json:"fqdn_mask,omitempty"`    // bit i: SMF i's Node ID is an FQDN, resolved through the simulator
 	NoPeek      bool           `json:"no_peek,omitempty"`      // never read go-upf's internal state (race-detector runs)
 }
@@ -104,6 +105,9 @@ type Sim struct {
 	stepA  atomic.Int64 // the same, for go-upf's goroutines (sockets, kernel, log)
 	kick   chan struct{}
 
+	free     bool // free-running mode (free.go): go-upf's goroutines never take s.emu
+	freeDone chan struct{}
+	byAddr   map[string]*SMF
 	detWG   sync.WaitGroup    // detached producers (action "detach")
 	detBusy map[int64]bool    // odd instants already taken by them
 	names   map[string]net.IP // the simulated resolver's zone
@@ -174,6 +178,9 @@ func (s *Sim) hash(tag string, vals ...uint64) uint64 {
 }
 
 func (s *Sim) logEvent(f string, a ...any) {
+	if s.free {
+		return // see free.go: no lock shared between go-upf's goroutines
+	}
 	line := fmt.Sprintf(f, a...)
 	s.emu.Lock()
 	h := fnv.New64a()
@@ -195,12 +202,18 @@ func (s *Sim) logEvent(f string, a ...any) {
 }
 
 func (s *Sim) fired(name string, n int) {
+	if s.free {
+		return
+	}
 	s.emu.Lock()
 	s.firedM[name] += n
 	s.emu.Unlock()
 }
 
 func (s *Sim) probe(name string, n int) {
+	if s.free {
+		return
+	}
 	s.emu.Lock()
 	s.probeM[name] += n
 	s.emu.Unlock()
@@ -320,7 +333,7 @@ type simHandler struct{ s *Sim }
 
 func (h simHandler) NotifySessReport(sr report.SessReport) {
 	s := h.s
-	if !s.cfg.Interpose {
+	if !s.cfg.Interpose || s.free {
 		s.srv.NotifySessReport(sr)
 		return
 	}
@@ -800,10 +813,39 @@ func stuckSignature(dump string) string {
 
 // Run executes one simulated run inside a fresh bubble.
 func Run(t *testing.T, cfg RunConfig, actions []Action, verbose bool) *RunResult {
+	if cfg.FreeRun && actions == nil {
+		// phase A: the action list comes from a lock-step run of the same seed (which is
+		// judged like any other C17 run); phase B executes that list free-running
+		gcfg := cfg
+		gcfg.FreeRun = false
+		gres := Run(t, gcfg, nil, verbose)
+		if gres.Violation != nil || gres.Harness != "" {
+			return gres
+		}
+		actions = gres.Actions
+		if actions == nil {
+			actions = []Action{}
+		}
+		res := Run(t, cfg, actions, verbose)
+		for k, v := range gres.Probes {
+			res.Probes[k] += v
+		}
+		for k, v := range gres.Fired {
+			res.Fired[k] += v
+		}
+		res.SimTimeMs += gres.SimTimeMs
+		return res
+	}
 	res := &RunResult{Config: cfg, Fired: map[string]int{}, Probes: map[string]int{}}
 	if verbose {
 		cb, _ := json.Marshal(cfg)
 		fmt.Printf("CFG %s\n", cb)
+		if cfg.FreeRun {
+			for _, a := range actions {
+				ab, _ := json.Marshal(a)
+				fmt.Printf("ACT %s\n", ab)
+			}
+		}
 	}
 	func() {
 		defer func() {
@@ -832,17 +874,25 @@ func Run(t *testing.T, cfg RunConfig, actions []Action, verbose bool) *RunResult
 			s := &Sim{
 				t: t, cfg: cfg, res: res, t0: time.Now(), kick: make(chan struct{}, 1),
 				firedM: res.Fired, probeM: res.Probes, permCnt: map[int]uint64{}, verbose: verbose,
-				dgs: map[int]*Dgram{}, names: map[string]net.IP{}, detBusy: map[int64]bool{},
+				dgs: map[int]*Dgram{}, names: map[string]net.IP{}, detBusy: map[int64]bool{}, byAddr: map[string]*SMF{},
 			}
 			s.kern = newKernel(s)
 			s.n4 = newSock(s, "n4")
 			s.gtpu = newSock(s, "gtpu")
 			s.model = newModel(s)
 			s.gen = newGen(s)
-			s.runBody(actions)
-			res.NonTrivial = s.nontrivial()
+			if cfg.FreeRun {
+				res.Actions = actions
+				s.runFree(actions)
+				res.NonTrivial = s.probeM["free.sends"] >= 3
+			} else {
+				s.runBody(actions)
+				res.NonTrivial = s.nontrivial()
+			}
 			res.EventHash = fmt.Sprintf("%016x", s.evHash)
-			res.Steps = s.stepNo
+			if !cfg.FreeRun {
+				res.Steps = s.stepNo
+			}
 			res.SimTimeMs = s.since().Milliseconds()
 			if verbose || res.Violation != nil || res.Harness != "" {
 				res.Trace = s.trace
